@@ -421,6 +421,15 @@ func c08One(out rec, rng *rand.Rand, index int, base, sbase string, unpriv bool)
 	if unpriv {
 		uid = "65534"
 	}
+	out.Count("cases_uid_"+uid, 1)
+	if len(c.Obstacles) > 0 {
+		out.Count("cases_with_read_only_directories", 1)
+	}
+	for _, p := range problems {
+		if unpriv && strings.Contains(p.Error, "permission denied") {
+			out.Count("unprivileged_permission_denied_problems", 1)
+		}
+	}
 	for i, t := range plan {
 		// ---- the property: interfered objects survive and are reported
 		for _, it := range t.Interf {
